@@ -217,6 +217,17 @@ namespace nmtools::meta
                     }
                 }();
 
+                // keepdims given as a run-time value (e.g. bool): the result has DIM or DIM-n_axis elements,
+                // only an upper bound of the length is known
+                [[maybe_unused]]
+                constexpr auto runtime_keepdims = !(is_constant_index_v<keepdims_t> || is_none_v<keepdims_t>);
+                if constexpr (runtime_keepdims && (DIM > 0) && (n_axis > 0)) {
+                    using type = nmtools_static_vector<nm_size_t,DIM>;
+                    return as_value_v<type>;
+                } else if constexpr (runtime_keepdims && !is_fail_v<decltype(B_DIM)> && (n_axis > 0)) {
+                    using type = nmtools_static_vector<nm_size_t,B_DIM>;
+                    return as_value_v<type>;
+                } else
                 if constexpr ((DIM > 0) && (n_axis > 0)) {
                     constexpr auto SIZE = DIM - n_axis;
                     using type = conditional_t<
